@@ -17,7 +17,7 @@ REPO = os.environ.get("OPDA_REPO", "/repo")
 
 def main():
     path = sys.argv[1] if len(sys.argv) > 1 else os.path.join(os.path.dirname(os.path.dirname(os.path.abspath(__file__))),
-                                                               "evidence", "coverage_probe.json")
+                                                               "coverage", "coverage_probe.json")
     rep = json.load(open(path))
     files = {}
     for prop, per_file in rep.items():
